@@ -453,12 +453,11 @@ def c11_f(ctx):
     rf = [r for r in returns(al) if r.value is not None and exa.term(r.value) == ('const', False)]
     gate = None
     for r in rf:
-        for (t, pol, _) in ctx.guards(al, r):
-            if pol and t[0] == 'bool' and t[1] == 'and' and \
-                    any(match(x, pattern("len(self.state['acquisition']) == 0")) is not None
-                        for x in t[2]) and \
-                    any(match(x, pattern('self.batches.has_pending')) is not None for x in t[2]):
-                gate = r
+        gs_ = [t for (t, pol, _) in ctx.guards(al, r) if pol and t[0] != 'bool']
+        if any(match(x, pattern("len(self.state['acquisition']) == 0")) is not None
+               for x in gs_) and \
+                any(match(x, pattern('self.batches.has_pending')) is not None for x in gs_):
+            gate = r
     ctx.check(gate is not None, al, 'submission gated on pending batches',
               "return False when no stored acquisition is left and batches are pending",
               'submission is not refused while batches are pending and a new acquisition would '
